@@ -382,11 +382,12 @@ func (rl *respDeserializer) peekBulkLine(length int) (line respBulkString, valid
 		panic("already determined the next line")
 	}
 
-	rl.nextPos = rl.pos + length + 2
-	if rl.nextPos > len(rl.content) {
+	if length < 0 || length > len(rl.content)-rl.pos-2 {
+		// not all there yet (or a length no input could ever satisfy)
 		valid = false
 		return
 	}
+	rl.nextPos = rl.pos + length + 2
 
 	if rl.content[rl.nextPos-2] != '\r' || rl.content[rl.nextPos-1] != '\n' {
 		rl.l.Errorf("bulk line does not have expected ending on line %d", rl.lineNumber)
@@ -426,7 +427,17 @@ func (rl *respDeserializer) getDouble(line string) (value respDouble, valid bool
 	return respDouble(value64), true
 }
 
+// A declared element count can only be honored if at least that many bytes are
+// still to come; anything else (negative, absurdly large) is treated like
+// incomplete input instead of being handed to make().
+func (rl *respDeserializer) plausibleCount(count int) bool {
+	return count >= 0 && count <= len(rl.content)-rl.pos
+}
+
 func (rl *respDeserializer) getNextArray(count int) (value respArray, valid bool) {
+	if !rl.plausibleCount(count) {
+		return
+	}
 	a := make(respArray, 0, count)
 
 	for i := 0; i < count; i++ {
@@ -441,6 +452,9 @@ func (rl *respDeserializer) getNextArray(count int) (value respArray, valid bool
 }
 
 func (rl *respDeserializer) getNextMap(pairs int) (value respMap, valid bool) {
+	if !rl.plausibleCount(pairs) {
+		return
+	}
 	m := newRespMapSized(pairs)
 
 	for i := 0; i < pairs; i++ {
@@ -460,6 +474,9 @@ func (rl *respDeserializer) getNextMap(pairs int) (value respMap, valid bool) {
 }
 
 func (rl *respDeserializer) getNextAttributeMap(pairs int) (value respAttributeMap, valid bool) {
+	if !rl.plausibleCount(pairs) {
+		return
+	}
 	m := make(respAttributeMap, pairs)
 
 	for i := 0; i < pairs; i++ {
@@ -479,6 +496,9 @@ func (rl *respDeserializer) getNextAttributeMap(pairs int) (value respAttributeM
 }
 
 func (rl *respDeserializer) getNextSet(count int) (value respSet, valid bool) {
+	if !rl.plausibleCount(count) {
+		return
+	}
 	s := make(respSet, count)
 
 	for i := 0; i < count; i++ {
@@ -494,6 +514,9 @@ func (rl *respDeserializer) getNextSet(count int) (value respSet, valid bool) {
 }
 
 func (rl *respDeserializer) getNextPush(count int) (value respPush, valid bool) {
+	if !rl.plausibleCount(count) {
+		return
+	}
 	a := make([]respValue, 0, count)
 	p := respPush{}
 
